@@ -319,6 +319,12 @@ def run(fx, tier):
     from callgraph import CallGraph as _CG
     v.rule('R-OWN', 'client_service::cancel() drains every member that can park a completion handler (connect timer, resolver, lock, queues): an attempt in progress cannot outlive the disconnect')
     rule_drain_members(fx, _CG(fx), v, prop='C09', rid='R-OWN', floor=40)
+    # a restarted client starts without the previous connection's CONNACK: limits such as Maximum Packet Size are those of
+    # THIS connection (mqtt_ctx copy constructor resets ca_props/state; shared with C10)
+    from c10 import config_copy_rule
+    if 'R-FLOW' not in v.rules:
+        v.rule('R-FLOW', 'configuration is carried over to a restarted client, negotiated state is not')
+    config_copy_rule(fx, v, 'C09')
     v.expect_min('R-CGRAPH', 40, 'do_write paths + disconnect_op edges')
     v.expect_min('R-FLOW', 10, 'encode sites')
     v.expect_min('R-ARITH', 8, 'terminal_disconnect_op × TUs')
